@@ -17,6 +17,7 @@ from ..dataflow import Flow, chain, call_name
 from ..absint import Interp
 from ..poly import Poly, le, lt, eq
 from ..roles import RoleFlow, check_call
+from ..divis import Divis
 from ..util import calls_in, qual, formals, bind, has_fact, parse_expr, \
     raises_of, raise_name
 
@@ -39,8 +40,6 @@ EXPLANATION = (
 NOT_DECIDED = [
     "behaviour under faults beyond what C06 gives",
     "the machine's side of each command",
-    "that link chunks stay word multiples (needs a modular loop invariant; "
-    "only the % 4 entry guards are checked)",
 ]
 
 
@@ -369,6 +368,18 @@ def r1_links(program, folder, rep):
             rep.check(okw, "C07-R1", inst, "each reply fills the next chunk-"
                       "sized window of the result, which then advances by "
                       "that chunk", construct="link read window", node=loop)
+        # every link command is word aligned and a whole number of words
+        dv = Divis(fn, 4)
+        dnode = dv.cfg.node_containing(call)
+        rep.check(dv.holds(a1, dnode) and dv.holds(a2, dnode), "C07-R1",
+                  inst, "every link %s command's address and length are "
+                  "multiples of 4 (must-analysis 'multiple of 4' through "
+                  "the loop: guards, x & ~3, min, += / -=)" % kind,
+                  construct="link %s word alignment" % kind, node=call,
+                  fail="a link %s command can be issued with an address or "
+                       "length that is not a multiple of 4 (known multiples "
+                       "of 4 at the command: %s)" % (kind, sorted(
+                           dv.state_in.get(dnode.id) or [])))
         # word guards
         rs = [r for r in raises_of(fn) if raise_name(r) == "ValueError"]
         guards = set()
